@@ -30,8 +30,9 @@ class _Raise(Exception):
 def value(e, env):
     if isinstance(e, ast.Constant):
         return e.value
-    if isinstance(e, ast.Call) and unparse(e) in env:
-        return env[unparse(e)]  # an abstract predicate supplied by the caller (isinstance(x, T), np.isscalar(x), ...)
+    if isinstance(e, (ast.Call, ast.Subscript)) and unparse(e) in env:
+        # an abstract predicate / table entry supplied by the caller (isinstance(x, T), len(xs), memo[key], ...)
+        return env[unparse(e)]
     if isinstance(e, (ast.Name, ast.Attribute)):
         k = unparse(e)
         if k in env:
@@ -95,6 +96,14 @@ def value(e, env):
                 return a is b
             if isinstance(op, ast.IsNot):
                 return a is not b
+            if isinstance(op, ast.Lt):
+                return a < b
+            if isinstance(op, ast.LtE):
+                return a <= b
+            if isinstance(op, ast.Gt):
+                return a > b
+            if isinstance(op, ast.GtE):
+                return a >= b
         except TypeError:
             raise Unknown(unparse(e))
     raise Unknown(unparse(e))
@@ -143,3 +152,61 @@ def select(fn, env):
     except _Raise:
         return "raise", None
     return "return", None
+
+
+def effects(body, env, what="block"):
+    """Abstract execution of a statement list for one assignment of its inputs: the list of effects it performs.
+
+    Effects: ("store", target text, value text) for subscript/attribute stores, ("aug", target text, op, value text),
+    ("set", name, value) for scalar locals whose new value is known, ("call", text) for expression statements and
+    ("loop", iterable text, [effects of one iteration]) for inner loops (the body is executed once with the loop variable
+    unknown).  `env` is updated as by `select`.  A test the inputs do not decide is an AnalysisError when its branches
+    have effects."""
+    env = dict(env)
+    out = []
+
+    def has_effect(stmts):
+        return any(isinstance(n, (ast.Assign, ast.AugAssign, ast.Expr, ast.Return, ast.Raise, ast.Break, ast.Continue)) for s in stmts for n in ast.walk(s))
+
+    def block(stmts, sink):
+        for st in stmts:
+            if isinstance(st, ast.If):
+                try:
+                    tv = bool(value(st.test, env))
+                except Unknown as u:
+                    if has_effect(st.body) or has_effect(st.orelse):
+                        raise AnalysisError("%s: effects selected under a test the analysis cannot decide: `%s` (unknown: %s)" % (what, unparse(st.test)[:80], u))
+                    continue
+                block(st.body if tv else st.orelse, sink)
+            elif isinstance(st, ast.Assign) and len(st.targets) == 1 and isinstance(st.targets[0], ast.Name):
+                name = st.targets[0].id
+                try:
+                    env[name] = value(st.value, env)
+                    sink.append(("set", name, env[name]))
+                except Unknown:
+                    env.pop(name, None)
+                    sink.append(("set", name, unparse(st.value)))
+            elif isinstance(st, ast.Assign):
+                for t in st.targets:
+                    sink.append(("store", unparse(t), unparse(st.value)))
+            elif isinstance(st, ast.AugAssign):
+                sink.append(("aug", unparse(st.target), type(st.op).__name__, unparse(st.value)))
+                if isinstance(st.target, ast.Name):
+                    env.pop(st.target.id, None)
+            elif isinstance(st, ast.For):
+                inner = []
+                for n in ast.walk(st.target):
+                    if isinstance(n, ast.Name):
+                        env.pop(n.id, None)
+                block(st.body, inner)
+                sink.append(("loop", unparse(st.iter), inner))
+            elif isinstance(st, ast.Expr) and not isinstance(st.value, ast.Constant):
+                sink.append(("call", unparse(st.value)))
+            elif isinstance(st, (ast.Break, ast.Continue)):
+                sink.append((type(st).__name__.lower(),))
+                return
+            elif isinstance(st, (ast.Return, ast.Raise, ast.While, ast.With, ast.Try)):
+                raise AnalysisError("%s: statement kind the effect analysis does not model: %s" % (what, unparse(st)[:60]))
+
+    block(body, out)
+    return out
